@@ -125,4 +125,27 @@ Proof.
   - intros Hc. rewrite <- Eb. apply hmarshal_decodes; assumption.
 Qed.
 
+(** ** decoding into a used object: the old contents are not an input *)
+Theorem hdecode_overwrites (m1 m2 : amap) c :
+  hdecode vdec e n m1 c = hdecode vdec e n m2 c.
+Proof. reflexivity. Qed.
+
+(** decoding a valid HashmapE (any label forms) into ANY object leaves exactly
+    the dictionary's mapping, an object satisfying the history invariant *)
+Theorem hdecode_valid (m : amap) (t : option (apt V)) c :
+  e = true ->
+  (forall a, t = Some a -> wf_pt n (erase a) /\ forms_valid a) ->
+  cells_of_e venc n t = Ok c ->
+  let m' := match t with Some a => tree_to_list [] (erase a) | None => [] end in
+  hdecode vdec e n m c = (m', true) /\ hinv m' /\ sorted m'.
+Proof.
+  intros -> Hw Hc m'. unfold hdecode.
+  rewrite (decode_e_any_label_form V venc vdec vcodec n t c Hw Hc). fold m'.
+  assert (Hs : sorted m' /\ keys_len n m').
+  { unfold m'. destruct t as [a|]; [|split; constructor].
+    destruct (Hw a eq_refl) as [Hwf _]. split; [apply ttl_sorted|apply ttl_keys_len; exact Hwf]. }
+  destruct Hs as [Hs Hl]. split; [reflexivity|]. split; [|exact Hs].
+  split; [apply sorted_nodup; exact Hs|exact Hl].
+Qed.
+
 End HistP.
